@@ -167,5 +167,107 @@ theorem commit_exact (cf : Path) (oldFiles oldDirs errDirs : List Path) (P V : F
             exact ⟨h, by simp [FS.isDir, hd.2]⟩
         · exact ⟨hPq, hV⟩
 
+/-- the same without the assumption on the cache file's directory: when the cache file lies in a directory the virtual
+    tree does not list (a directory recorded by the previous build, re-used for the cache file), that directory and its
+    ancestors stay - `rmdir` fails on them - and everywhere else the physical tree is the virtual tree -/
+theorem commit_exact_general (cf : Path) (oldFiles oldDirs errDirs : List Path) (P V : FS)
+    (hwfV : TreeWF V)
+    (hsub : ∀ q, V.get q ≠ none → P.get q = V.get q)
+    (hfiles : ∀ q b m, q ≠ cf → P.get q = some (.file b m) → V.get q = none → q ∈ oldFiles)
+    (hdirs : ∀ q, P.get q = some .dir → V.get q = none → q ∈ errDirs ∨ q ∈ oldDirs)
+    (herr : ∀ d ∈ errDirs, V.get d = none)
+    :
+    ∀ q, (V.get q ≠ none ∨ ¬ q <+: cf) → (commit (fun p => V.isFile p) (fun p => V.isDir p) cf oldFiles oldDirs errDirs P).get q = V.get q := by
+  intro q hq
+  have hqcf : V.get q = none → q ≠ cf := fun hn e => by
+    rcases hq with h | h
+    · exact h hn
+    · exact h (e ▸ List.prefix_refl _)
+  have hP1 := removeOld_get (fun p => V.isFile p) cf oldFiles P
+  have hframe := commit_frame (fun p => V.isFile p) (fun p => V.isDir p) cf oldFiles oldDirs errDirs P q
+  cases hV : V.get q with
+  | some e =>
+    -- known to the virtual tree: untouched
+    have hPq : P.get q = some e := by rw [hsub q (by rw [hV]; simp), hV]
+    rcases hframe with h | ⟨_, h | h⟩
+    · rw [h, hPq]
+    · exfalso
+      obtain ⟨_, h2, _, b, m, h4⟩ := h
+      rw [hPq] at h4
+      cases h4
+      simp [FS.isFile, hV] at h2
+    · exfalso
+      obtain ⟨h1, h2⟩ := h
+      rw [hPq] at h2
+      cases h2
+      rcases h1 with h1 | h1
+      · rw [herr q h1] at hV; cases hV
+      · simp [FS.isDir, hV] at h1
+  | none =>
+    cases hPq : P.get q with
+    | none =>
+      rcases hframe with h | ⟨h, _⟩
+      · rw [h, hPq]
+      · exact h
+    | some e =>
+      cases e with
+      | file b m =>
+        -- a stale output: removed by the first loop
+        have hmem := hfiles q b m (hqcf hV) hPq hV
+        have h1 : (removeOld (fun p => V.isFile p) cf oldFiles P).get q = none := by
+          rw [hP1]
+          have : (q ∈ oldFiles ∧ (fun p => V.isFile p) q = false ∧ q ≠ cf) ∧ P.isFile q = true :=
+            ⟨⟨hmem, by simp [FS.isFile, hV], hqcf hV⟩, by simp [FS.isFile, hPq]⟩
+          exact if_pos this
+        unfold commit
+        rcases rmEmpty_get (dirsToRemove (fun p => V.isDir p) oldDirs errDirs) (removeOld (fun p => V.isFile p) cf oldFiles P) q with h | ⟨_, _, h⟩
+        · rw [h, h1]
+        · exact h
+      | dir =>
+        -- a directory the virtual tree does not know: it holds only such directories once the stale outputs are gone
+        unfold commit
+        have hnp : ¬ q <+: cf := by
+          rcases hq with h | h
+          · exact absurd hV h
+          · exact h
+        apply Rollback.rmEmpty_removes (fun d => P.get d = some .dir ∧ V.get d = none ∧ ¬ d <+: cf)
+        · intro d hd
+          refine ⟨?_, Or.inr ?_⟩
+          · intro e; have h2 := hd.2.1; rw [e, get_nil] at h2; cases h2
+          · rw [hP1]
+            have : ¬ ((d ∈ oldFiles ∧ (fun p => V.isFile p) d = false ∧ d ≠ cf) ∧ P.isFile d = true) := by
+              intro hc; simp [FS.isFile, hd.1] at hc
+            rw [if_neg this]; exact hd.1
+        · intro d hd n hn
+          rw [hP1] at hn
+          split at hn
+          · exact absurd rfl hn
+          · rename_i hcond
+            have hVn : V.get (d ++ [n]) = none := by
+              by_contra hc
+              have := hwfV (d ++ [n]) (by simp) hc
+              rw [show (d ++ [n]).dropLast = d by simp] at this
+              simp [FS.isDir, hd.2.1] at this
+            cases hPn : P.get (d ++ [n]) with
+            | none => exact absurd hPn hn
+            | some e =>
+              cases e with
+              | dir => exact ⟨rfl, hVn, fun hpre => hd.2.2 ((List.prefix_append d [n]).trans hpre)⟩
+              | file b m =>
+                exfalso
+                by_cases hcfn : d ++ [n] = cf
+                · exact hd.2.2 (hcfn ▸ List.prefix_append d [n])
+                · apply hcond
+                  exact ⟨⟨hfiles _ b m hcfn hPn hVn, by simp [FS.isFile, hVn], hcfn⟩, by simp [FS.isFile, hPn]⟩
+        · intro d hd _
+          unfold dirsToRemove
+          rw [mem_dedup]
+          rcases hdirs d hd.1 hd.2.1 with h | h
+          · exact List.mem_append_left _ h
+          · apply List.mem_append_right
+            simp only [List.mem_filter, Bool.not_eq_true']
+            exact ⟨h, by simp [FS.isDir, hd.2.1]⟩
+        · exact ⟨hPq, hV, hnp⟩
+
 end Commit
 end FB
